@@ -571,6 +571,19 @@ Section KeyModel64.
   Lemma bits_skipn64 : forall n (l : list byte), skipn n (bitsb l) = bitsb (skipn n l).
   Proof. intros n l. apply skipn_map. Qed.
 
+  Lemma le_len1 : forall m upd next n tk r (sched : list (half nib)),
+    m <= length sched -> m <= length (sched_loop nib n upd next tk r sched).
+  Proof. intros m upd next n tk r sched H. rewrite sched_loop_len. exact H. Qed.
+  (* rewriting the innermost pass by explicit congruence: [rewrite] would first try to unify the lemma with the OUTER
+     passes and convert their (closed) arguments, i.e. run the 36/40-iteration loops symbolically *)
+  Local Tactic Notation "rw_inner_pass" uconstr(lem) :=
+    match goal with
+    | |- pass bool ?b3 ?w ?n ?t3 ?r3 (pass bool ?b2 ?w ?n ?t2 ?r2 (pass bool ?b1 ?w ?n ?t1 ?r1 ?m)) = _ =>
+        etransitivity; [apply (f_equal (fun x => pass bool b3 w n t3 r3 (pass bool b2 w n t2 r2 x))); refine lem|]
+    | |- pass bool ?b2 ?w ?n ?t2 ?r2 (pass bool ?b1 ?w ?n ?t1 ?r1 ?m) = _ =>
+        etransitivity; [apply (f_equal (fun x => pass bool b2 w n t2 r2 x)); refine lem|]
+    | |- pass bool ?b1 ?w ?n ?t1 ?r1 ?m = _ => etransitivity; [refine lem|]
+    end.
   Theorem key_sched64_model : forall (key hdr : list byte) (sched : list (half nib)) back r0,
     8 <= length key <= 24 -> length hdr = 4 -> length sched = 40 ->
     let ks' := set_key_inner nib bxor4 cnib4 l2 l3 8 load64 nib0 m64_rounds {| ks_rounds := r0; ks_sched := sched |} key None in
@@ -587,29 +600,29 @@ Section KeyModel64.
     - cbn [mk_ks ks_rounds ks_sched]. rewrite Nat2N.id.
       change (m64_rounds 1) with 32. rewrite set_rounds_image4 by exact Hh'.
       rewrite tk_region64.
-      rewrite (pass1_64_image false 32 _ _ sched back (hdr4'_len 32 _ Hh') L32).
+      rw_inner_pass (pass1_64_image false 32 _ _ sched back (hdr4'_len 32 _ Hh') L32).
       reflexivity.
     - cbn [mk_ks ks_rounds ks_sched]. rewrite Nat2N.id.
       change (m64_rounds 2) with 36. rewrite set_rounds_image4 by exact Hh'.
       rewrite (bits_skipn64 8 key), (bits_firstn64 8 key), tk_region64.
       rewrite (tk_region64_full (firstn 8 key)) by (rewrite firstn_length; lia).
-      rewrite (pass1_64_image false 36 _ _ sched back (hdr4'_len 36 _ Hh') L36).
-      rewrite (passx64_image (k64_tk2_body bool xorb false) (next_tk2 nib l2)
-                 (fun tk slot pre Hp => k64_tk2_body_step tk slot pre [] Hp) 36 _ _ _ back (hdr4'_len 36 _ Hh'))
-        by (eapply Nat.le_trans; [exact L36 | apply Nat.eq_le_incl; symmetry; apply sched_loop_len]).
+      rw_inner_pass (pass1_64_image false 36 _ _ sched back (hdr4'_len 36 _ Hh') L36).
+      rw_inner_pass (passx64_image (k64_tk2_body bool xorb false) (next_tk2 nib l2)
+                 (fun tk slot pre Hp => k64_tk2_body_step tk slot pre [] Hp) 36 _ _ _ back (hdr4'_len 36 _ Hh')
+                 (le_len1 _ _ _ _ _ _ _ L36)).
       reflexivity.
     - cbn [mk_ks ks_rounds ks_sched]. rewrite Nat2N.id.
       change (m64_rounds 3) with 40. rewrite set_rounds_image4 by exact Hh'.
       rewrite (bits_skipn64 (2 * 8) key), (bits_skipn64 8 key), (bits_firstn64 8 key), (bits_firstn64 8 (skipn 8 key)), tk_region64.
       rewrite (tk_region64_full (firstn 8 key)) by (rewrite firstn_length; lia).
       rewrite (tk_region64_full (firstn 8 (skipn 8 key))) by (rewrite firstn_length, skipn_length; apply Nat.leb_gt in E2; lia).
-      rewrite (pass1_64_image false 40 _ _ sched back (hdr4'_len 40 _ Hh') L40).
-      rewrite (passx64_image (k64_tk2_body bool xorb false) (next_tk2 nib l2)
-                 (fun tk slot pre Hp => k64_tk2_body_step tk slot pre [] Hp) 40 _ _ _ back (hdr4'_len 40 _ Hh'))
-        by (eapply Nat.le_trans; [exact L40 | apply Nat.eq_le_incl; symmetry; apply sched_loop_len]).
-      rewrite (passx64_image (k64_tk3_body bool xorb false) (next_tk3 nib l3)
-                 (fun tk slot pre Hp => k64_tk3_body_step tk slot pre [] Hp) 40 _ _ _ back (hdr4'_len 40 _ Hh'))
-        by (eapply Nat.le_trans; [exact L40 | apply Nat.eq_le_incl; symmetry; etransitivity; [apply sched_loop_len | apply sched_loop_len]]).
+      rw_inner_pass (pass1_64_image false 40 _ _ sched back (hdr4'_len 40 _ Hh') L40).
+      rw_inner_pass (passx64_image (k64_tk2_body bool xorb false) (next_tk2 nib l2)
+                 (fun tk slot pre Hp => k64_tk2_body_step tk slot pre [] Hp) 40 _ _ _ back (hdr4'_len 40 _ Hh')
+                 (le_len1 _ _ _ _ _ _ _ L40)).
+      rw_inner_pass (passx64_image (k64_tk3_body bool xorb false) (next_tk3 nib l3)
+                 (fun tk slot pre Hp => k64_tk3_body_step tk slot pre [] Hp) 40 _ _ _ back (hdr4'_len 40 _ Hh')
+                 (le_len1 _ _ _ _ _ _ _ (le_len1 _ _ _ _ _ _ _ L40))).
       reflexivity.
   Qed.
 End KeyModel64.
